@@ -64,6 +64,8 @@ def run(check: Check):
   from fjsa.props import c18
   c18.run(check)
   # the mean every compression aggregator ends in: tree_mean's accumulation and its zero-guarded normaliser (shared with C07)
+  from fjsa.props import c10
+  c10.hidden_state(check, [m, repo.module('fedjax.aggregators.walsh_hadamard')], 'R-ACCOUNT.state')
   from fjsa.props import c07
   c07._tree_mean(check, repo.func('fedjax.core.tree_util', 'tree_mean'))
   c07.inverse_weight_rule(check)
